@@ -15,6 +15,7 @@ type ISOFile struct {
 	Extent uint32
 	Size   uint32
 	Flags  byte
+	RR     RRInfo // Rock Ridge fields (RRFiles only)
 }
 
 type ISOReport struct {
@@ -24,6 +25,9 @@ type ISOReport struct {
 	Files       []ISOFile
 	Problems    []string
 	HasJoliet   bool
+	HasRR       bool
+	RRFiles     []ISOFile // the tree as the Rock Ridge fields describe it (NM names, relocated directories in place); Path uses those names
+	RRDiag      []string
 	JolietFiles []ISOFile
 	JolietDiag  []string // oddities of the supplementary (Joliet) tree; not part of the primary-tree verdict
 }
@@ -90,6 +94,7 @@ func WalkISO(r ReaderAt, start, size int64) *ISOReport {
 		rep.prob("PVD volume space %d blocks x %d bytes exceeds the %d-byte range given", vs, rep.BlockSize, size)
 	}
 	rep.Files = walkISOTree(r, start, size, rep, pvd[156:190], false)
+	walkISORR(r, start, size, rep, pvd[156:190])
 	if svd != nil {
 		rep.HasJoliet = true
 		keep := rep.Problems
@@ -245,4 +250,122 @@ func ReadISOFile(r ReaderAt, start int64, bs int, f ISOFile) ([]byte, error) {
 		return nil, nil
 	}
 	return readFull(r, start+int64(f.Extent)*int64(bs), int(f.Size))
+}
+
+
+// walkISORR walks the primary tree the way a Rock Ridge reader does: names from NM, symlinks from SL,
+// a CL record stands for the relocated directory it points to, RE directories are not listed where they are stored.
+func walkISORR(r ReaderAt, start, size int64, rep *ISOReport, rootRec []byte) {
+	bs := int64(rep.BlockSize)
+	rootExt, _ := both32(rootRec[2:10])
+	rootLen, _ := both32(rootRec[10:18])
+	diag := func(f string, a ...any) {
+		if len(rep.RRDiag) < 30 {
+			rep.RRDiag = append(rep.RRDiag, fmt.Sprintf(f, a...))
+		}
+	}
+	type dirJob struct {
+		path   string
+		extent uint32
+		length uint32
+		depth  int
+	}
+	seen := map[uint32]bool{}
+	jobs := []dirJob{{"", rootExt, rootLen, 0}}
+	skip := 0
+	firstDir := true
+	for len(jobs) > 0 {
+		j := jobs[0]
+		jobs = jobs[1:]
+		if seen[j.extent] || j.depth > 64 || j.length > 64<<20 {
+			continue
+		}
+		seen[j.extent] = true
+		off := int64(j.extent) * bs
+		if off+int64(j.length) > size {
+			diag("directory %q: extent beyond the range", j.path)
+			continue
+		}
+		data, err := readFull(r, start+off, int(j.length))
+		if err != nil {
+			diag("directory %q unreadable: %v", j.path, err)
+			continue
+		}
+		if firstDir {
+			firstDir = false
+			if len(data) > 0 && int(data[0]) <= len(data) {
+				rep.HasRR, skip = suspSkip(data[:int(data[0])])
+			}
+			if !rep.HasRR {
+				return
+			}
+		}
+		for p := 0; p < len(data); {
+			l := int(data[p])
+			if l == 0 {
+				np := (p/int(bs) + 1) * int(bs)
+				if np <= p {
+					break
+				}
+				p = np
+				continue
+			}
+			if l < 34 || p+l > len(data) {
+				diag("directory %q: record at offset %d has length %d", j.path, p, l)
+				break
+			}
+			rec := data[p : p+l]
+			p += l
+			ext, _ := both32(rec[2:10])
+			ln, _ := both32(rec[10:18])
+			flags := rec[25]
+			idLen := int(rec[32])
+			if 33+idLen > len(rec) {
+				continue
+			}
+			id := rec[33 : 33+idLen]
+			if idLen == 1 && (id[0] == 0 || id[0] == 1) {
+				continue
+			}
+			sp := 33 + idLen
+			if idLen%2 == 0 {
+				sp++
+			}
+			var su []byte
+			if sp < len(rec) {
+				su = rec[sp:]
+			}
+			rr := parseSUSP(r, start, int(bs), size, su, skip)
+			for _, pr := range rr.Problems {
+				diag("%q/%q: %s", j.path, string(id), pr)
+			}
+			if rr.Relocated {
+				continue
+			}
+			name := string(id)
+			if i := strings.LastIndex(name, ";"); i >= 0 {
+				name = name[:i]
+			}
+			if rr.HasName {
+				name = rr.Name
+			}
+			full := name
+			if j.path != "" {
+				full = j.path + "/" + name
+			}
+			f := ISOFile{Path: full, Dir: flags&2 != 0, Extent: ext, Size: ln, Flags: flags, RR: rr}
+			if rr.ChildLink != 0 {
+				// a placeholder for a relocated directory: its listing is at the child link
+				f.Dir = true
+				f.Extent = rr.ChildLink
+				if dot, err := readFull(r, start+int64(rr.ChildLink)*bs, 34); err == nil {
+					f.Size, _ = both32(dot[10:18])
+				}
+			}
+			rep.RRFiles = append(rep.RRFiles, f)
+			if f.Dir {
+				jobs = append(jobs, dirJob{full, f.Extent, f.Size, j.depth + 1})
+			}
+		}
+	}
 }
